@@ -103,7 +103,7 @@ def features(evs, reset):
                   "last_place": (script[len(reqs) - 1][2] if reqs and len(reqs) <= len(script) else "-")})
     else:
         f.update({"own": reset.get("own"), "itemv": reset.get("itemv"), "bfault": reset.get("bfault"),
-                  "requests": [[e["b"], e["items"], e["ans"]] for e in reqs], "reported": ret.get("reported"), "filed": ret.get("filed")})
+                  "requests": [[e["b"], e["items"], e["ans"]] for e in reqs], "reported": ret.get("reported"), "filed": ret.get("filed"), "all": reset.get("all"), "gerr": reset.get("gerr")})
     return f
 
 
@@ -127,7 +127,7 @@ def run(ctx):
         raise vlib.Inconclusive("harness executed %d of %d cases" % (executed, len(lines)))
 
     rs = ctx.tlc_trace("AdminTrace", "AdminTrace.cfg", trace, shards=8)
-    allv, nops, nreq, drift = [], 0, 0, 0
+    allv, nops, nreq, drift, vdrift = [], 0, 0, 0, 0
     for r in rs:
         ctx.need(r, "trace validation")
         st = r.printed("STATS")
@@ -137,8 +137,12 @@ def run(ctx):
         nops += st[0]["ops"]
         nreq += st[0]["reqs"]
         drift += st[0]["drift"]
+        vdrift += st[0].get("vdrift", 0)
     if drift:
         ctx.say("DRIFT spec=Admin traces=%d (the real code did not do what the reference model predicts; soft, not a verdict)" % drift)
+    if vdrift:
+        ctx.say("DRIFT spec=AdminOracle.ExpectedVer requests=%d (request version differs from the one admin.go in /repo selects for the "
+                "configured Kafka release; soft, not a verdict)" % vdrift)
     if nops != executed:
         raise vlib.Inconclusive("trace validation evaluated %d operations, harness recorded %d" % (nops, executed))
 
@@ -167,6 +171,7 @@ def run(ctx):
         "admin_requests_observed": nreq,
         "foreign_requests_turned_away": summary.get("foreign_requests_turned_away", 0),
         "drift_traces": drift,
+        "request_version_drift": vdrift,
         "drift_note": "controller-bound operations (cases emitted by the reference variants of spec/Admin.tla) on which the real code did not "
                       "do what the implementation-shaped model predicted (attempt count, result class, code); soft, never a verdict",
         "explanation": "every complete behaviour of spec/Admin.tla (reference variant = admin.go as it is: all scripts of up to Max+1 answers for "
